@@ -66,6 +66,17 @@ TScGet == /\ Ev.op = "scget"
           /\ StatsAre(hits', misses', evictions', Len(ents'))
           /\ Done /\ UNCHANGED on
 TClear == /\ Ev.op \in {"invalidate", "update"} /\ Clear /\ StatsAre(0, 0, 0, 0) /\ Done /\ UNCHANGED on
+\* InvalidatePattern: the keys are digests, so which requests a fragment of a digest matches is not known to the
+\* recorder - the specification chooses the set (it must have the reported size) and the later lookups decide.
+\* A pattern known to match every key ("", the key prefix) or none (a letter no digest contains) leaves no choice.
+TInvPat ==
+    /\ Ev.op = "invpat"
+    /\ \E R \in SUBSET Present :
+          /\ Cardinality(R) = Ev.n
+          /\ (Ev.cls = "all" => R = Present) /\ (Ev.cls = "none" => R = {})
+          /\ DeleteSet(R)
+    /\ StatsAre(hits', misses', evictions', Len(ents'))
+    /\ Done /\ UNCHANGED on
 TEnable == /\ Ev.op = "enable" /\ on' = Ev.b /\ StatsAre(hits, misses, evictions, Len(ents)) /\ Done /\ UNCHANGED vars
 TStats == /\ Ev.op = "stats" /\ StatsAre(hits, misses, evictions, Len(ents)) /\ Done /\ UNCHANGED <<vars, on>>
 TTick  == /\ Ev.op = "tick"
@@ -84,7 +95,7 @@ TraceInit == /\ TLCSet(1, 0) /\ l = 1 /\ ph = 0 /\ on = TRUE
              /\ ents = <<>> /\ use = <<>> /\ ttl = 0 /\ cap = 1 /\ hits = 0 /\ misses = 0 /\ evictions = 0
              /\ last = Ret("init", NoKey, NoVal, FALSE, 0)
 TraceNext == /\ l <= Len(Trace)
-             /\ (TReset \/ TSearchGet \/ TSearchPut \/ TSearchEnd \/ TSearchOff \/ TScPut \/ TScGet \/ TClear \/ TEnable \/ TStats \/ TTick \/ TCleanup)
+             /\ (TReset \/ TSearchGet \/ TSearchPut \/ TSearchEnd \/ TSearchOff \/ TScPut \/ TScGet \/ TClear \/ TInvPat \/ TEnable \/ TStats \/ TTick \/ TCleanup)
 TraceSpec == TraceInit /\ [][TraceNext]_tvars
 \* every event is consumed: reaching the end violates this "invariant" (the search stops at the first witness)
 NotDone == l <= Len(Trace)
